@@ -71,7 +71,8 @@ class SympySimulator(Backend):
         elif isinstance(initial_statevector, Qubit):
             python_statevector = initial_statevector
         elif isinstance(initial_statevector, (np.ndarray, np.matrix)):
-            python_statevector = matrix_to_qubit(initial_statevector)
+            # sympy expects a column vector: a 1D array (the format the other backends take) is reshaped
+            python_statevector = matrix_to_qubit(np.reshape(initial_statevector, (-1, 1)))
         else:
             raise ValueError(f"The {type(initial_statevector)} type for initial_statevector is not supported.")
 
